@@ -145,7 +145,7 @@ func init() {
 	})
 	reg("vh/vf.Dec", func(e *Exec, a []Value) Value { return bv(e.nonneg(e.strArg(a[0]))) })
 	reg("vh/vf.Time", func(e *Exec, a []Value) Value { return e.symTime(e.strArg(a[0])) })
-	pricingText := func(loose, withDenom bool) func(e *Exec, a []Value) Value {
+	pricingTextD := func(loose, withDenom, dec bool) func(e *Exec, a []Value) Value {
 		return func(e *Exec, a []Value) Value {
 			name := e.strArg(a[0])
 			denom := "stake"
@@ -155,7 +155,12 @@ func init() {
 			}
 			nT := e.concretize(a[1].(*Term), 6)
 			nV := e.concretize(a[2].(*Term), 6)
-			at := &PricingAtt{Price: e.intRange(e.nonneg(name + ".price")), Denom: denom}
+			var at *PricingAtt
+			if dec { // a decimal price text of any length: the numerator is an arbitrary non-negative integer
+				at = &PricingAtt{Price: e.nonneg(name + ".price"), Denom: denom, PriceDec: true}
+			} else {
+				at = &PricingAtt{Price: e.intRange(e.nonneg(name + ".price")), Denom: denom}
+			}
 			valid := e.tt.Bool(true)
 			disc := func(n string) *Term {
 				if !loose {
@@ -207,9 +212,11 @@ func init() {
 			return StrVal{B: e.constStr("<pricing:" + name + ">").B, Att: at}
 		}
 	}
+	pricingText := func(loose, withDenom bool) func(e *Exec, a []Value) Value { return pricingTextD(loose, withDenom, false) }
 	reg("vh/vf.PricingText", pricingText(false, false))
 	reg("vh/vf.PricingTextLoose", pricingText(true, false))
 	reg("vh/vf.PricingTextIn", pricingText(false, true))
+	reg("vh/vf.PricingTextDec", pricingTextD(false, false, true))
 
 	// ---- logic
 	reg("vh/vf.And", func(e *Exec, a []Value) Value { return e.tt.And(a[0].(*Term), a[1].(*Term)) })
